@@ -85,6 +85,7 @@ type c09Machine struct {
 	n     int
 	regs  []c09Region
 	ks    uint64
+	seed  int64
 }
 
 func c09Deadline() time.Duration {
@@ -105,7 +106,7 @@ func c09Open(t *testing.T) (*c09Machine, *rand.Rand, func()) {
 	debug.SetGCPercent(-1)
 	// more Ps than spinning goroutines, so that the watchdog timers of the harness always get to run
 	runtime.GOMAXPROCS(24)
-	m := &c09Machine{}
+	m := &c09Machine{seed: seed}
 	m.mem, err = syscall.Mmap(-1, 0, 64*4096, syscall.PROT_READ|syscall.PROT_WRITE, syscall.MAP_ANON|syscall.MAP_PRIVATE)
 	if err != nil {
 		t.Fatal(err)
@@ -209,16 +210,102 @@ func c09Free(f mm.Frame) (res string) {
 	return "ok"
 }
 
-// a frame number that lies in no pool
-func (m *c09Machine) unmanaged(rng *rand.Rand) mm.Frame {
-	last := m.regs[len(m.regs)-1]
-	switch rng.Intn(3) {
-	case 0:
-		return mm.Frame((last.addr+last.length)>>12) + mm.Frame(1+rng.Intn(5))
-	case 1:
-		return mm.Frame(m.regs[0].addr>>12) - mm.Frame(1+rng.Intn(3))
+// a frame number that lies in no pool (pools may be listed in any order)
+func (m *c09Machine) inPool(f mm.Frame) bool {
+	for _, r := range m.regs {
+		if r.typ == 1 && uint64(f) >= (r.addr+4095)>>12 && uint64(f) < (r.addr+r.length)>>12 {
+			return true
+		}
 	}
-	return mm.Frame(0xfffffff) + mm.Frame(rng.Intn(1000))
+	return false
+}
+
+func (m *c09Machine) unmanaged(rng *rand.Rand) mm.Frame {
+	var cand []mm.Frame
+	for _, r := range m.regs {
+		if r.typ != 1 {
+			continue
+		}
+		first, endp1 := mm.Frame((r.addr+4095)>>12), mm.Frame((r.addr+r.length)>>12)
+		for _, f := range []mm.Frame{first - 1, first - 2, endp1, endp1 + 1, endp1 + mm.Frame(2+rng.Intn(4))} {
+			if f > 0 && !m.inPool(f) {
+				cand = append(cand, f)
+			}
+		}
+	}
+	cand = append(cand, mm.Frame(0xfffffff)+mm.Frame(rng.Intn(1000)))
+	return cand[rng.Intn(len(cand))]
+}
+
+// bounds of all pools (for the ownership table)
+func (m *c09Machine) span() (lo, hi mm.Frame) {
+	lo, hi = mm.Frame(^uint64(0)>>1), 0
+	for _, r := range m.regs {
+		if r.typ != 1 {
+			continue
+		}
+		if f := mm.Frame(r.addr >> 12); f < lo {
+			lo = f
+		}
+		if f := mm.Frame((r.addr + r.length) >> 12); f > hi {
+			hi = f
+		}
+	}
+	return lo, hi
+}
+
+// A pool layout: frames [start, start+n) per pool, in the order the allocator lists them.  The allocator makes
+// no assumption on that order, so neither does the harness: ascending, descending, unsorted, physically
+// adjacent, with gaps, tiny, and around the 64k boundary of the bitmap arithmetic.
+type c09Pool struct{ start, n uint64 }
+
+var c09Layouts = [][]c09Pool{
+	{{200, 12}, {16, 8}},           // descending
+	{{300, 5}, {100, 3}, {200, 2}}, // unsorted
+	{{100, 3}, {103, 2}},           // adjacent, ascending
+	{{103, 2}, {100, 3}},           // adjacent, descending
+	{{77, 1}, {33, 1}, {55, 1}},    // tiny, unsorted
+	{{1000, 65}, {130, 63}},        // word boundary, descending, starts not multiples of 64
+	{{64, 64}, {0x100000, 70}},     // ascending with a huge gap
+	{{9, 2}, {5, 1}, {7, 2}},       // interleaved: 5 | 7 8 | 9 10 adjacent and unsorted
+	{{500, 65537}},                 // 64k + 1
+	{{70000, 3}, {300, 65536}},     // 64k, descending
+	{{40, 65535}, {66000, 2}},      // 64k - 1, adjacent-ish ascending
+}
+
+// initDirect builds the allocator state in-package for a layout pmm.Init cannot produce from a sorted
+// memory map, and logs the same `init` event (regions in pool order, no kernel image, no early frames).
+func (m *c09Machine) initDirect(layout []c09Pool) bool {
+	m.regs = nil
+	bitmapAllocator = BitmapAllocator{}
+	var pools []framePool
+	rj := []c09Ev{}
+	for _, p := range layout {
+		m.regs = append(m.regs, c09Region{p.start * 4096, p.n * 4096, 1})
+		pools = append(pools, framePool{startFrame: mm.Frame(p.start), endFrame: mm.Frame(p.start + p.n - 1),
+			freeCount: uint32(p.n), freeBitmap: make([]uint64, (p.n+63)/64)})
+		bitmapAllocator.totalPages += uint32(p.n)
+		rj = append(rj, c09Ev{"a": c09W64(p.start * 4096), "l": c09W64(p.n * 4096), "t": [2]int{0, 1}})
+	}
+	bitmapAllocator.pools = pools
+	m.early = nil
+	e := c09Ev{"k": "init", "regs": rj, "ks": c09W64(0), "ke": c09W64(0), "res": "ok", "early": [][4]int{}}
+	m.counters(e)
+	m.emit(e)
+	return true
+}
+
+// setup picks the i-th allocator shape: every other one through the real pmm.Init (ascending maps), the
+// others built directly.  small = leave out the 64k pools (legs that walk a pool to exhaustion).
+func (m *c09Machine) setup(i int, rng *rand.Rand, small bool) bool {
+	if i%2 == 0 {
+		return m.initPools(c09PoolSizes(rng), rng)
+	}
+	n := len(c09Layouts)
+	if small {
+		n -= 3
+	}
+	return m.initDirect(c09Layouts[(i/2)%n])
 }
 
 // projection of everything AllocFrame/FreeFrame may change
@@ -293,8 +380,13 @@ func TestVerifC09Gate(t *testing.T) {
 		grace = time.Duration(g) * time.Microsecond
 	}
 	for c := 0; c < ncases; c++ {
-		sizes := [][]int{{3}, {2, 1}, {1, 2, 1}, {64, 2}, {65}, {4, 3}}[c%6]
-		if !m.initPools(sizes, rng) {
+		var ok bool
+		if c%2 == 0 {
+			ok = m.initPools([][]int{{3}, {2, 1}, {1, 2, 1}, {64, 2}, {65}, {4, 3}}[(c/2)%6], rng)
+		} else {
+			ok = m.initDirect(c09Layouts[(c/2)%len(c09Layouts)])
+		}
+		if !ok {
 			m.emit(c09Ev{"k": "reset"})
 			continue
 		}
@@ -405,7 +497,7 @@ func TestVerifC09Windows(t *testing.T) {
 	}
 	for w := 0; w < nwin; w++ {
 		nth := []int{2, 3, 4, 6, 8, 16, 12, 16}[master.Intn(8)]
-		if !m.initPools(c09PoolSizes(master), master) {
+		if !m.setup(w, master, false) {
 			m.emit(c09Ev{"k": "reset"})
 			continue
 		}
@@ -528,14 +620,23 @@ func TestVerifC09Stress(t *testing.T) {
 	totalOps := int64(0)
 	for run := 0; run < nruns; run++ {
 		nth := []int{16, 16, 8, 4, 2, 16, 12, 3}[run%8]
-		sizes := [][]int{{70}, {1}, {2, 1}, {64}, {65, 3}, {3}, {33, 31}, {1, 1, 1}}[master.Intn(8)]
-		if !m.initPools(sizes, master) {
+		var ok bool
+		if run%2 == 0 {
+			ok = m.initPools([][]int{{70}, {1}, {2, 1}, {64}, {65, 3}, {3}, {33, 31}, {1, 1, 1}}[master.Intn(8)], master)
+		} else {
+			ok = m.initDirect(c09Layouts[(run/2+int(m.seed))%(len(c09Layouts)-3)])
+		}
+		if !ok {
 			m.emit(c09Ev{"k": "reset"})
 			continue
 		}
-		lo := mm.Frame(m.regs[0].addr>>12) - 8
-		last := m.regs[len(m.regs)-1]
-		hi := mm.Frame((last.addr+last.length)>>12) + 72 // room for padding bits that a broken allocator hands out
+		lo, hi := m.span()
+		if lo > 8 {
+			lo -= 8
+		} else {
+			lo = 0
+		}
+		hi += 72 // room for padding bits that a broken allocator hands out
 		owner := make([]int32, int(hi-lo))
 		own := func(f mm.Frame, from, to int32) bool {
 			if f < lo || f >= hi {
